@@ -156,18 +156,20 @@ def sig_class(c):
         ';'.join(tn(t) for t in c['rets']))
 
 
-def run(ctx):
-    import random
-    cases = S.export(ctx)
-    rnd = random.Random(ctx.seed)
+_CASES = None
+
+
+def _exchange_chunk(job):
+    idxs, quick, seed = job
     fams = ['xml', 'soap11', 'soap12']
     vals = [None, 'soft', 'lxml']
     recs = []
-    for i, c in enumerate(cases):
+    for i in idxs:
+        c = _CASES[i]
         # every case runs under every family; validators rotate in the quick tier (all in thorough)
         for fi, fam in enumerate(fams):
             for vi, v in enumerate(vals):
-                if ctx.quick and c['id'] == 'T2' and (i + fi + vi + ctx.seed) % 3 != 0:
+                if quick and c['id'] == 'T2' and (i + fi + vi + seed) % 3 != 0:
                     continue
                 if c['id'] == 'T9' and fam == 'xml':
                     continue          # XmlDocument has no envelope, hence no headers
@@ -175,7 +177,7 @@ def run(ctx):
                     w = World(c, fam, v)
                     # one validator per case sees the same document with comments sprinkled in
                     obs = w.exchange(noise='comments' if (i + fi + vi) % 3 == 0 else None)
-                    if v == 'soft' and c['id'] != 'T9' and (not ctx.quick or (i + fi) % 4 == ctx.seed % 4):
+                    if v == 'soft' and c['id'] != 'T9' and (not quick or (i + fi) % 4 == seed % 4):
                         cd = client_decode(w)
                         if cd is not None:
                             obs['client'] = cd
@@ -188,6 +190,21 @@ def run(ctx):
                     obs = {'ncalls': 0, 'status': -1, 'escape': 'build: %s: %s' % (type(e).__name__, e), 'req': [], 'resp': [],
                            'args': [['leaf', '?'] for _ in c['args']], 'raw': '', 'request': ''}
                 recs.append({'c': c, 'fam': fam, 'validator': v, 'obs': obs})
+    return recs
+
+
+def run(ctx):
+    global _CASES
+    import multiprocessing
+    cases = S.export(ctx)
+    _CASES = cases
+    n = 12
+    idx = list(range(len(cases)))
+    size = (len(idx) + n * 4 - 1) // (n * 4)
+    jobs = [(idx[a:a + size], ctx.quick, ctx.seed) for a in range(0, len(idx), size)]
+    with multiprocessing.get_context('fork').Pool(n) as pool:
+        parts = pool.map(_exchange_chunk, jobs)
+    recs = [r for p_ in parts for r in p_]
     judge(ctx, recs, 'C01')
     ctx.level = 'exploration'
     ctx.cov_add(evaluations=len(recs), cases=len(cases), distinct_nontrivial=len(recs), exhaustive=not ctx.quick,
